@@ -220,6 +220,7 @@ type bodyShape struct {
 	Collected []*types.Var
 	KeyedOnly bool     // every effect is `dst[K] = V` / delete / local definition / collect
 	Other     []string // statements outside the accepted shapes
+	Calls     []*ast.CallExpr // every call evaluated by the body (right-hand sides, definitions, conditions included)
 }
 
 func rangeBodyShape(info *types.Info, rs *ast.RangeStmt) bodyShape {
@@ -290,7 +291,107 @@ func rangeBodyShape(info *types.Info, rs *ast.RangeStmt) bodyShape {
 		}
 	}
 	visit(rs.Body.List)
+	sh.Calls = core.Calls(rs.Body, false)
 	return sh
+}
+
+// pureLibPrefixes: library callees that neither keep nor change state outside their arguments' own values.
+var pureLibPrefixes = []string{
+	"strings.", "strconv.", "path.", "path/filepath.", "unicode.", "unicode/utf8.", "slices.", "maps.", "sort.", "math.", "errors.", "bytes.", "cmp.",
+	"fmt.Sprint", "fmt.Errorf", "go/token.", "go/ast.", "go/types.", "(go/types.", "(*go/types.", "(go/token.", "(*go/token.", "(*go/ast.", "(go/ast.",
+	"reflect.", "(reflect.", "(*reflect.", "regexp.", "(*regexp.Regexp).", "(error).", "(*strings.Builder).", "(*strings.Replacer).", "(time.Duration).", "(go/constant.", "go/constant.",
+	"(*golang.org/x/tools/go/packages.", "golang.org/x/mod/",
+}
+
+// orderFreeCall: evaluating the call cannot make the order of the surrounding iteration observable - the callee and
+// everything it calls (through the bodies in scope) makes no dynamic call, starts nothing concurrent and writes only
+// its own locals; callees outside the module are accepted from a list of stateless library packages. The point is
+// hidden shared state: rendering a snippet registers imports in the file's tracker in arrival order.
+func orderFreeCall(p *core.Program, info *types.Info, c *ast.CallExpr, depth int, seen map[*types.Func]bool) (bool, string) {
+	if tv, ok := info.Types[c.Fun]; ok && tv.IsType() {
+		return true, ""
+	}
+	name := core.CalleeName(info, c)
+	if strings.HasPrefix(name, "builtin.") {
+		return true, ""
+	}
+	fn := core.CalleeFunc(info, c)
+	if fn == nil {
+		return false, "`" + core.ExprStr(c) + "` is a call through a function value"
+	}
+	for _, pre := range pureLibPrefixes {
+		if strings.HasPrefix(name, pre) {
+			return true, ""
+		}
+	}
+	if sig, ok := fn.Type().(*types.Signature); ok && sig.Recv() != nil {
+		if _, isIface := sig.Recv().Type().Underlying().(*types.Interface); isIface {
+			return false, "`" + core.ExprStr(c) + "` is a call through the interface method " + name
+		}
+	}
+	f := p.FuncOfObj(fn)
+	if f == nil || f.Body == nil {
+		return false, "`" + core.ExprStr(c) + "` calls " + name + ", whose effects are not known"
+	}
+	if seen[fn] {
+		return true, ""
+	}
+	seen[fn] = true
+	if depth > 6 {
+		return false, "call chain below " + name + " is too deep to follow"
+	}
+	finfo := f.Info()
+	good, why := true, ""
+	ast.Inspect(f.Body, func(n ast.Node) bool {
+		if !good {
+			return false
+		}
+		rootLocal := func(e ast.Expr) bool {
+			for {
+				switch x := ast.Unparen(e).(type) {
+				case *ast.IndexExpr:
+					e = x.X
+				case *ast.SelectorExpr:
+					e = x.X
+				case *ast.StarExpr:
+					e = x.X
+				case *ast.Ident:
+					if x.Name == "_" {
+						return true
+					}
+					v, ok := finfo.ObjectOf(x).(*types.Var)
+					return ok && core.DeclaredIn(finfo, f.Body, v) && ast.Unparen(e) == ast.Expr(x)
+				default:
+					return false
+				}
+			}
+		}
+		switch x := n.(type) {
+		case *ast.AssignStmt:
+			for _, l := range x.Lhs {
+				if id, ok := ast.Unparen(l).(*ast.Ident); ok {
+					if v, isV := finfo.ObjectOf(id).(*types.Var); id.Name == "_" || (isV && (v.Parent() == nil || v.Pkg() == nil || v.Parent() != v.Pkg().Scope())) {
+						continue // a local, a parameter or a result of the callee
+					}
+				}
+				if !rootLocal(l) {
+					good, why = false, name+" writes `"+core.ExprStr(l)+"`, state that outlives the call"
+				}
+			}
+		case *ast.IncDecStmt:
+			if _, ok := ast.Unparen(x.X).(*ast.Ident); !ok && !rootLocal(x.X) {
+				good, why = false, name+" writes `"+core.ExprStr(x.X)+"`, state that outlives the call"
+			}
+		case *ast.GoStmt, *ast.SelectStmt, *ast.SendStmt:
+			good, why = false, name+" communicates or starts a goroutine"
+		case *ast.CallExpr:
+			if ok, w := orderFreeCall(p, finfo, x, depth+1, seen); !ok {
+				good, why = false, w+" (reached from "+name+")"
+			}
+		}
+		return good
+	})
+	return good, why
 }
 
 // sortedBeforeUse: after the loop every path sorts x before any other mention.
